@@ -17,7 +17,10 @@ META = {
         "Iterator::sum::<Decimal> passes a catch_unwind barrier (or the arithmetic is checked). R4: in the CLI main no "
         "error exit is reachable after an output call (stdout, fs::write) except that call's own error, and the PDF "
         "write of a defaulted path is cut off by the exists() test. R5: the validator's match is exhaustive and the "
-        "(variant, field, sign-class) table that pushes an error equals the table in the property statement. "
+        "(variant, field, sign-class) table that pushes an error equals the table in the property statement. R6: every Decimal "
+        "division in user-written code is dominated by a non-zero test on the very divisor (or the divisor comes from an iterator "
+        "filtered on `> 0`, or is audited with the invariant that makes it non-zero), and the 30-day cumulative ratio is only ever "
+        "multiplied/divided by ratios tested non-zero. "
         "Decides shapes on all paths/sites; does not run inputs, does not decide termination."),
     "trusted_base": [
         "rustc MIR with overflow checks on (dev profile); callee resolution by Instance::try_resolve",
@@ -141,11 +144,54 @@ def run(ctx, rep):
                f"{P.path_from(par, hit[0])} at {site_fns[hit[0]][0]}",
                site_fns[hit[0]][0] if hit else "", key=f"R3:decimal-overflow:{gname}")
 
+    # ---------------- R6 every Decimal division is guarded against a zero divisor
+    n6 = 0
+    for b, i, t, dv, why in P.decimal_division_sites(F, all_user):
+        n6 += 1
+        sh_ = P.shape(dv)
+        reason = why or DIV_AUDIT.get((_short(b), sh_)) or DIV_AUDIT.get((_short(b),))
+        if reason and not why:
+            reason = "audited: " + reason
+        rep.ob("R6", f"{_short(b)}:÷{sh_}"[:150], reason is not None,
+               reason or f"Decimal division by {show(dv)[:60]} is not dominated by a non-zero test on that value: rust_decimal panics on ÷0 "
+               f"({'reachable: ' + P.path_from(parent, b.id) if b.id in reach else 'library code'})",
+               b.loc(t["sp"]), key=f"R6:{_short(b)}:div:{sh_}"[:200])
+    rep.count("decimal_division_sites", n6)
+    # the 30-day ratio accumulator never becomes zero: every update of it is guarded by ratio != 0
+    for b in all_user:
+        if b.crate != "cgt_core" or "::matcher::" not in b.id:
+            continue
+        tb = None
+        for i, t in b.calls():
+            k = P.is_decimal_arith_assign(t["callee"])
+            if k in ("MulAssign", "DivAssign"):
+                tgt = op_place(t["args"][0])
+                r = root_of_operand(b, t["args"][0])
+                if r and 1 <= r[0] <= b.argc and b.local_ty(r[0]) == "&mut rust_decimal::decimal::Decimal":
+                    tb = tb or Terms(F, b, inline_depth=0)
+                    dv = tb.operand(t["args"][1])
+                    from roles import guards_of
+                    ok = any(P._nonzero_guard(cond, val, dv) for cond, val, s in guards_of(b, tb, i))
+                    rep.ob("R6", f"{_short(b)}:ratio{'×' if k == 'MulAssign' else '÷'}=nonzero", ok,
+                           "the cumulative ratio is only multiplied/divided by a ratio tested to be non-zero (it can never become 0)" if ok else
+                           f"the cumulative split ratio is {'multiplied' if k == 'MulAssign' else 'divided'} by {show(dv)[:40]} without a non-zero test: "
+                           "a zero ratio inside a 30-day window makes the later `available ÷ ratio` (or this division) panic",
+                           b.loc(t["sp"]), key=f"R6:{_short(b)}:ratio-{k}")
+
     # ---------------- R4 CLI main: output ordering and PDF overwrite guard
     cli_output(F, rep)
     # ---------------- R5 validator table
     validator_table(F, rep)
 
+
+# audited divisions whose divisor is non-zero by an invariant established elsewhere
+DIV_AUDIT = {
+    ("matcher::bed_and_breakfast::matched_quantities_with_split_ratio",):
+        "the cumulative ratio starts at ONE and every update is guarded by ratio != 0 (checked by R6 ratio×=/÷= obligations)",
+    ("amount::CurrencyAmount::to_gbp",):
+        "rate_per_gbp > 0 is enforced when rates are loaded (C08-R7: `rate <= 0 → Err` dominates every insertion)",
+    ("add_thousands_separators",): "not a Decimal division",
+}
 
 RANGE_AUDIT = {
     ("matcher::Matcher::process", "range:Range<usize>"):
